@@ -273,6 +273,110 @@ def part_active_gates(ctx, pq, quick, rng):
                     ctx.validated()
 
 
+GCFG = """SPECIFICATION GSpec
+CONSTANTS
+  D = %d
+  Gates <- GDef
+  MaxDepth = %d
+  HBars <- HDef
+  Export = FALSE
+  DGates <- DGDef
+  ExportGrad = TRUE
+INVARIANT GGCheck
+"""
+
+
+def part_gaussian_tangent(ctx, pq, quick, rng):
+    """PqGaussianGrad: exact tangent of mean, covariance and mean photon numbers of lattice Gaussian programs with respect to one gate
+    parameter (squeezing r / phi, two-mode squeezing, displacement, quadratic phase, controlled-X / Z, beamsplitter, phaseshifter) against
+    jax.jacfwd / jacrev through GaussianSimulator with the JAX connector, and against finite differences of the NumPy simulation."""
+    import jax
+    import jax.numpy as jnp
+    jax.config.update("jax_enable_x64", True)
+    from .. import gaussian_replay as GR
+    counters = ctx.notes.setdefault("gaussian_tangent", {"tangents": 0, "jax": 0, "finite_difference": 0, "not_obtainable": 0})
+    for d, depth, ng in ((2, 2, 7), (3, 2, 6)) if quick else ((2, 3, 9), (3, 3, 8)):
+        cat = [g for g in L.gaussian_catalogue(d) if not g.get("chan")]
+        gates = rng.sample([g for g in cat if g.get("dG")], ng - 1) + rng.sample([g for g in cat if not g.get("dG")], 1)
+        extra = "DGDef == << " + ",\n ".join(L.dgauss_record(g) for g in gates) + " >>"
+        mod = GR.spec_module("MCPG", d, gates, extra).replace("EXTENDS PqGaussian", "EXTENDS PqGaussianGrad")
+        res = run_tlc("MCPG", "MCPG.cfg", generated={"MCPG.tla": mod, "MCPG.cfg": GCFG % (d, depth)}, timeout=3000)
+        if res.violated:
+            ctx.report("spec:PqGaussianGrad:" + ",".join(map(str, res.violated)), "PqGaussianGrad violates its own theorem (oracle broken)", res.out[-2000:])
+            continue
+        if "Error:" in res.out:
+            raise MachineryError("PqGaussianGrad run failed:\n" + "\n".join(l for l in res.out.splitlines() if not l.startswith('<<"GGRAD"'))[-2500:])
+        ctx.add_tlc(res)
+        recs, seen = [], set()
+        for r in res.records("GGRAD"):
+            k = (tuple(r["hist"]), tuple(r["marked"]))
+            if k not in seen:
+                seen.add(k)
+                recs.append(r)
+        if quick and len(recs) > 30:
+            recs = rng.sample(recs, 30)
+        perm = GR.xxpp_to_xpxp_perm(d)
+        for rec in recs:
+            idx = [i - 1 for i in rec["hist"]]
+            mstep, gi, pk = rec["marked"]
+            mstep -= 1
+            g = gates[idx[mstep]]
+            pname = g["dG"][pk - 1][0]
+            p0 = g["params"][pname]
+            names = [gates[i]["name"] + str(gates[i]["modes"]) for i in idx]
+            hb = rng.choice(L.HBARS)
+            hbar = hb[4]
+            rep = next(x for x in rec["reps"] if abs(x["hbar"][0] / x["hbar"][1] - hbar) < 1e-12)
+            dmean = np.array([GR.qv(x) for x in rep["dmean"]]).real
+            dcov = np.array([[GR.qv(x) for x in row] for row in rep["dcov"]]).real
+            exact = np.concatenate([dmean, dcov.reshape(-1)])
+            sig = f"{g['cls']}.{pname}:" + "/".join(sorted({x.split('(')[0] for x in names}))
+            replay = {"gates": names, "parameter": f"{pname} of gate {mstep + 1}", "hbar": hbar}
+            ctx.case((tuple(names), mstep, pname, hbar), nontrivial=np.abs(exact).max() > 1e-12)
+            counters["tangents"] += 1
+
+            def moments(conn, x):
+                ins = [pq.Vacuum()]
+                for s_, i in enumerate(idx):
+                    gg = gates[i]
+                    if s_ == mstep:
+                        params = dict(gg["params"])
+                        params[pname] = x
+                        ins.append(getattr(pq, gg["cls"])(**params).on_modes(*gg["modes"]))
+                    else:
+                        ins.append(gg["mk"](pq).on_modes(*gg["modes"]))
+                st = pq.GaussianSimulator(d=d, config=pq.Config(hbar=hbar), connector=conn).execute(pq.Program(instructions=ins)).state
+                return st.xxpp_mean_vector, st.xxpp_covariance_matrix
+            scale = max(1.0, np.abs(exact).max())
+            with warnings.catch_warnings():
+                warnings.simplefilter("ignore")
+                h = 1e-6
+                mp, cp = moments(pq.NumpyConnector(), p0 + h)
+                mm, cm = moments(pq.NumpyConnector(), p0 - h)
+                fd = np.concatenate([(np.asarray(mp) - np.asarray(mm)) / (2 * h), ((np.asarray(cp) - np.asarray(cm)) / (2 * h)).reshape(-1)])
+                if np.abs(fd - exact).max() > 1e-5 * scale:
+                    ctx.report(f"C10:gaussian:finite-difference:{sig}", f"finite differences of the NumPy GaussianSimulator with respect to {pname} of gate {mstep + 1} of {names} (hbar {hbar}) differ from the "
+                               f"exact tangent by {np.abs(fd - exact).max():.3g}", replay)
+                    continue
+                counters["finite_difference"] += 1
+                try:
+                    def f(x):
+                        m, c = moments(pq.JaxConnector(), x)
+                        return jnp.concatenate([jnp.real(m), jnp.real(c).reshape(-1)])
+                    jac = np.asarray((jax.jacfwd if counters["jax"] % 2 else jax.jacrev)(f)(jnp.asarray(p0, dtype=jnp.float64)))
+                except Exception as e:  # noqa
+                    counters["not_obtainable"] += 1
+                    ctx.notes.setdefault("derivative_not_obtainable", {})[f"jax-gaussian:{type(e).__name__}:{g['cls']}"] = \
+                        ctx.notes.setdefault("derivative_not_obtainable", {}).get(f"jax-gaussian:{type(e).__name__}:{g['cls']}", 0) + 1
+                    continue
+                counters["jax"] += 1
+                if jac.shape != exact.shape or np.abs(jac - exact).max() > 1e-8 * scale:
+                    ctx.report(f"C10:gaussian:jax:{sig}", f"JAX derivative of mean / covariance of GaussianSimulator with respect to {pname} of gate {mstep + 1} of {names} (hbar {hbar}) differs from the exact "
+                               f"tangent by {np.abs(jac - exact).max() if jac.shape == exact.shape else 'shape'}", replay)
+                else:
+                    ctx.validated()
+
+
 def perm_def(A, rows, cols):
     """permanent of the matrix with row / column multiplicities, by its definition (sum over permutations), exact for integer (Gaussian-integer) entries"""
     r = [i for i, m in enumerate(rows) for _ in range(m)]
@@ -352,5 +456,7 @@ def run(ctx):
     ctx.tick("passive_gates")
     part_active_gates(ctx, pq, quick, rng)
     ctx.tick("active_gates")
+    part_gaussian_tangent(ctx, pq, quick, rng)
+    ctx.tick("gaussian_tangent")
     part_permanent(ctx, pq, quick, rng)
     ctx.tick("permanent")
